@@ -170,7 +170,7 @@ def nontrivial(case):
 GEN = {"kernel": ("theories/Gen/GenEquiv.vo", "kernel of /repo (gene_datum.py, overlap.py, revise_annotation.py, process_genome.py windows): 15 equivalence lemmas"),
        "cache": ("theories/Gen/GenCacheEquiv.vo", "cache decisions of /repo (verify_chromosome_h5_cache, revise_annotation, _is_current, _filter_jobs): 3 equivalence lemmas"),
        "revise": ("theories/Props/C02code.vo", "recursion of /repo's ReviseAnno (call_merge, merge_by_like + 5 helpers) over data frames: equal to Model.Revise.revise on every group with unique row labels, never raises, 2n+1 calls (Proofs/ReviseCodeP.v)"),
-       "guards": ("theories/Proofs/GuardsP.vo", "guard functions of /repo (MergeData._validate_chromosome/_windows/_gene_names, PreProcessor._validate_split, check_strand; the calls of the guards by MergeData.sum and import_filtered_genes): accept exactly what the models accept (Proofs/GuardsP.v)"),
+       "guards": ("theories/Proofs/GuardsP.vo", "guard functions of /repo (MergeData._validate_chromosome/_windows/_gene_names, PreProcessor._validate_split, check_strand, the required-column test of import_filtered_TEs; the calls of the guards by MergeData.sum and import_filtered_genes): accept exactly what the models accept (Proofs/GuardsP.v)"),
        "reader": ("theories/Props/C15code.vo", "loading protocol of /repo's DensityData (__init__, _swap_strand_vals, _index_of_gene, verify_h5_cache) over symbolic file names: same raw file, same trusted copy, same values served as Model.Reader.load; exchange loop = swap_all (Proofs/ReaderCodeP.v)"),
        "writers": ("theories/Props/C12code.vo", "writers of the reused intermediates of /repo (ReviseAnno._write, GeneData.write, TransposonData.write, _calculate_overlap_job, error path of _process_overlap_job) as lists of file actions: atomic at every crash point (Props/C12code.v)"),
        "overlap": ("theories/Props/C01code.vo", "the loop of /repo's OverlapWorker.calculate with _reset, the filters, the index dictionaries and the slice functions: the assignment log equals Model.OverlapArr.calc_with by conversion, and for unique known names and unique non-negative windows every labelled row holds the overlaps Pipeline.cell_num sums and nothing outside the index ranges is assigned (Proofs/OverlapArrP.v)"),
